@@ -396,7 +396,11 @@ func (s *Solver) checkOneShot(conj []*Term, wantModel bool) (Result, *Model, err
 		fmt.Fprintln(s.log, sb.String())
 	}
 	argv := []string{"--produce-models", "--lang", "smt2", "--solve-bv-as-int=sum", fmt.Sprintf("--tlimit=%d", s.TimeoutS*1000), f.Name()}
+	tq := time.Now()
 	out, _ := exec.Command("cvc5", argv...).CombinedOutput()
+	if p := os.Getenv("GOSYM_SMTLOG"); p != "" {
+		os.WriteFile(fmt.Sprintf("%s.q%d.smt2", p, s.Queries), []byte(sb.String()+fmt.Sprintf("; %.2fs %s\n", time.Since(tq).Seconds(), firstLineOf(string(out)))), 0o644)
+	}
 	s.Queries++
 	txt := string(out)
 	first := strings.TrimSpace(txt)
@@ -444,4 +448,12 @@ func (s *Solver) checkOneShot(conj []*Term, wantModel bool) (Result, *Model, err
 		}
 	}
 	return Sat, model, nil
+}
+
+func firstLineOf(s string) string {
+	s = strings.TrimSpace(s)
+	if i := strings.IndexByte(s, '\n'); i >= 0 {
+		return s[:i]
+	}
+	return s
 }
